@@ -382,7 +382,13 @@ class Query:
                 self.solver_s = sum(float(x) for x in m)
             self.nprops = len(results)
             fails = [r for r in results if r.get("status") not in ("SUCCESS",)]
-            if status == "error" or (not results):
+            nobody = sorted(set(r.get("description", "") for r in fails if "no body for callee" in r.get("description", "")))
+            if nobody and not self.witness:
+                # a library function without a body is given arbitrary results by CBMC:
+                # neither a pass nor a failure of such a query means anything
+                self.verdict = "inconclusive"
+                self.note = "encoding incomplete: " + "; ".join(nobody)[:400]
+            elif status == "error" or (not results):
                 self.verdict = "inconclusive"
                 self.note = "cbmc error rc=%d: %s %s" % (p.returncode, "; ".join(msgs)[-600:], (p.stderr or "")[-300:])
             elif self.witness:
